@@ -9,22 +9,22 @@ Shape (JSON-able):
 """
 
 
-def F(items, tags=(), bg=0, name=None):
-    return {"tags": list(tags), "bg": bg, "items": list(items), "name": name}
+def F(items, tags=(), bg=0, name=None, bgp=False):
+    return {"tags": list(tags), "bg": bg, "items": list(items), "name": name, "bgp": bgp}
 
 
 def S(n, tags=(), name=None):
     return {"k": "s", "n": n, "tags": list(tags), "name": name}
 
 
-def O(n, ex, tags=(), name=None):
-    return {"k": "o", "n": n, "tags": list(tags), "name": name,
+def O(n, ex, tags=(), name=None, noptags=False):
+    return {"k": "o", "n": n, "tags": list(tags), "name": name, "noptags": noptags,
             "ex": [{"rows": e[0], "tags": list(e[1]) if len(e) > 1 else []} if not isinstance(e, dict) else e
                    for e in ex]}
 
 
-def R(items, tags=(), bg=0):
-    return {"k": "r", "tags": list(tags), "bg": bg, "items": list(items)}
+def R(items, tags=(), bg=0, bgp=False):
+    return {"k": "r", "tags": list(tags), "bg": bg, "items": list(items), "bgp": bgp}
 
 
 class Elem(object):
@@ -111,13 +111,14 @@ def render_feature(shape, fidx=0, markers=False, indent="  ", blank=0, step_kw=(
     fe = reg(Elem(fid, "feature", emit("Feature: %s" % (shape.get("name") or fid)), ftags))
     out.features.append(fe)
 
-    def bg(container, n, ind):
+    def bg(container, n, ind, param=False):
         if not n:
             return
         emit(ind + "Background:")
         for k in range(n):
             src = "%s.bg.%d" % (container.eid, k)
-            emit(ind + indent + "%s do %s" % (step_kw[0] if k == 0 else step_kw[3], src))
+            # param: the background step carries an outline placeholder (rendered per row for outline scenarios)
+            emit(ind + indent + "%s do %s%s" % (step_kw[0] if k == 0 else step_kw[3], src, " <x>" if param else ""))
             container.bg_steps.append(src)
 
     def inherited(container):
@@ -143,7 +144,7 @@ def render_feature(shape, fidx=0, markers=False, indent="  ", blank=0, step_kw=(
                     e.own_steps.append(src)
                 e.steps = inherited(container) + e.own_steps
             elif it["k"] == "o":
-                tags = list(it["tags"]) + (["m_" + iid] if markers else []) + pt(iid)
+                tags = list(it["tags"]) + (["m_" + iid] if markers else []) + ([] if it.get("noptags") else pt(iid))
                 emit_tags(tags, ind)
                 o = reg(Elem(iid, "outline", emit(ind + "Scenario Outline: %s" % (it.get("name") or iid)), tags, container))
                 o.marker = "m_" + iid if markers else None
@@ -169,10 +170,10 @@ def render_feature(shape, fidx=0, markers=False, indent="  ", blank=0, step_kw=(
                 rtags_ = list(it["tags"]) + pt(iid)
                 emit_tags(rtags_, ind)
                 r = reg(Elem(iid, "rule", emit(ind + "Rule: %s" % iid), rtags_, container))
-                bg(r, it.get("bg", 0), ind + indent)
+                bg(r, it.get("bg", 0), ind + indent, it.get("bgp", False))
                 items(r, it["items"], ind + indent)
 
-    bg(fe, shape.get("bg", 0), indent)
+    bg(fe, shape.get("bg", 0), indent, shape.get("bgp", False))
     items(fe, shape["items"], indent)
     return out
 
